@@ -21,7 +21,7 @@ def all_rules(props=None):
         (SubRequestRules, {"C07"}),
         (SessionRules, {"C11", "C12", "C04"}),
         (ConnectRules, {"C04", "C05", "C07", "C11", "C12"}),
-        (GateRules, {"C14", "C04"}),
+        (GateRules, {"C14", "C04", "C18"}),
         (KeepaliveRules, {"C15"}),
         (HostileRules, {"C16"}),
         (ArgRules, {"C20", "C02"}),
